@@ -106,7 +106,17 @@ func checkWireAllocs(c *core.Ctx, rule string, fns []*ssa.Function) (nMakes, nWi
 					// an upper bound on the read value (or a conversion of it) dominates the allocation
 					isRoot := func(v ssa.Value) bool {
 						r, _ := wireCount(v, 0)
-						return r == root
+						if r != root {
+							return false
+						}
+						// an upper bound tested on a SIGNED conversion of a 64-bit count bounds nothing:
+						// 2^63 and above convert to a negative number, pass `n > MAX` and make() panics
+						if kind != "u32" {
+							if bt, isB := v.Type().Underlying().(*types.Basic); isB && bt.Info()&types.IsUnsigned == 0 {
+								return false
+							}
+						}
+						return true
 					}
 					var isBound func(v ssa.Value) bool
 					isBound = func(v ssa.Value) bool {
@@ -167,7 +177,7 @@ func checkWireSliceBounds(c *core.Ctx, rule string, fns []*ssa.Function) int {
 					continue
 				}
 				root, kind := wireCount(sl.High, 0)
-				if root == nil || (kind != "u64" && kind != "varuint") {
+				if root == nil || (kind != "u64" && kind != "varuint" && kind != "u32") {
 					continue
 				}
 				if _, isArr := sl.X.Type().Underlying().(*types.Pointer); isArr {
@@ -240,11 +250,55 @@ func checkWireSliceBounds(c *core.Ctx, rule string, fns []*ssa.Function) int {
 								continue
 							}
 						}
-						if cmp.Y != root {
-							continue // a converted bound (int(count)) may have wrapped
-						}
-						if bt, isBasic := cmp.X.Type().Underlying().(*types.Basic); !isBasic || bt.Info()&types.IsUnsigned == 0 {
-							continue
+						if kind == "u32" {
+							// a 32-bit count converted to int cannot wrap (64-bit int): `i < int(count)` counts `count` elements
+							y := cmp.Y
+							if cv, isCv := y.(*ssa.Convert); isCv {
+								y = cv.X
+							}
+							if y != root {
+								continue // the loop ran to another bound (a clamped copy): fewer elements than `count` may be held
+							}
+							// the re-slice bound is the count itself or the count clamped DOWN to a constant
+							okHigh := true
+							hv := sl.High
+							if cv, isCv := hv.(*ssa.Convert); isCv {
+								hv = cv.X
+							}
+							if hv != root {
+								phi, isPhi := hv.(*ssa.Phi)
+								if !isPhi {
+									continue
+								}
+								for pi, e := range phi.Edges {
+									if e == root {
+										continue
+									}
+									k, isK := ir.ConstInt(e)
+									if !isK {
+										okHigh = false
+										break
+									}
+									// the constant is taken only where count > K (a minimum, not a maximum)
+									gk := relGuard("count > K", func(v ssa.Value) bool { return v == root }, func(v ssa.Value) bool { kk, ok := ir.ConstInt(v); return ok && kk == k }, token.GTR)
+									pk := ir.PassEdges(fn, gk.G)
+									pred := phi.Block().Preds[pi]
+									rr := ir.NewReach(fn).CutEdges(pk).Run(nil)
+									if len(pk) == 0 || rr.EdgeReachable(ir.Edge{From: pred, Idx: indexOfSucc(pred, phi.Block())}) {
+										okHigh = false
+									}
+								}
+							}
+							if !okHigh {
+								continue
+							}
+						} else {
+							if cmp.Y != root {
+								continue // a converted bound (int(count)) may have wrapped
+							}
+							if bt, isBasic := cmp.X.Type().Underlying().(*types.Basic); !isBasic || bt.Info()&types.IsUnsigned == 0 {
+								continue
+							}
 						}
 						exit := cd.If.Block().Succs[1]
 						if exit == sl.Block() || exit.Dominates(sl.Block()) {
